@@ -133,8 +133,10 @@ def build(hist, n, idmap=None):
                 for w in workers:
                     if w[1] == i and w[3]:
                         w[3] = False
-                        sc.append({'op': 'poll_dead', 'var': w[0], 'timeout': 8})
+                        sc.append({'op': 'poll_dead', 'var': w[0], 'timeout': 14})
                         exp.append(('ret', True, 'worker-survives-context-delete'))
+                        sc.append({'op': 'child_dead', 'var': w[0], 'kind': 'PR', 'within': 6})
+                        exp.append(('ret', True, 'backend-of-a-deleted-context-still-running'))
                         sc.append({'op': 'get', 'var': w[0], 'attr': 'has_error'})
                         exp.append(('ret', True, 'worker-of-deleted-context-has-no-error'))
             else:
@@ -157,6 +159,14 @@ def build(hist, n, idmap=None):
                 exp.append(('ret', [reg[i], kw['tag'], nw, kw['exp']], 'worker-does-not-run-the-context-target-with-its-defaults'))
             else:
                 exp.append(('raises', None, 'worker-in-unknown-context'))
+        elif a[0] == 'busy':
+            # every live worker gets a long call which cannot be interrupted gracefully
+            for w in workers:
+                if w[3]:
+                    sc.append({'op': 'call', 'var': w[0], 'method': 'enqueue', 'args': ['SLEEP']})
+                    exp.append(('any-return', None, 'enqueue-fails'))
+            sc.append({'op': 'sleep', 's': 0.3})
+            exp.append(('any-return', None, 'harness'))
         elif a[0] == 'finish':
             live = [w for w in workers if w[3]]
             w = live[-1]
@@ -230,6 +240,8 @@ def run(ctx):
                 'all histories up to depth %d, then extended on new (model state, operation) pairs up to depth %d; every history ends with a probe of '
                 'every registered context and of the server' % (list(ids), d_full, d_max))
     hs = list(histories(ids, d_full, d_max, maxw))
+    # deleting a context whose workers are busy in calls which cannot be interrupted (always part of the quick tier too)
+    hs += [('create:1:a', 'worker:1', 'worker:1', 'busy', 'delete:1'), ('create:1:a', 'worker:1', 'busy', 'delete:1', 'create:1:b', 'worker:1', 'use')]
     jobs = []
     plan = []
     for n, h in enumerate(hs):
